@@ -1553,6 +1553,10 @@ var shapeTargets = []shapeTarget{
 	{"cmd/thruserv", "handleWebSocket", "", "args:hub.Broadcast", "handler_bcast_args"},
 	{"cmd/thruserv", "handleWebSocket", "", "args:store.GetByJoinCode", "handler_lookup_args"},
 	{"internal/ice", "ProbeAndDial", "Prober", "if-cond-has:claimed", "probe_claim"},
+	{"internal/ice", "ProbeAndDial", "Prober", "args:probeWithTransport", "probe_phases"},
+	{"internal/ice", "ProbeAndDial", "Prober", "if-cond-has:directErr", "probe_phase_errs"},
+	{"internal/ice", "ProbeAndDial", "Prober", "if-cond-has:directCandidates", "probe_direct_phase"},
+	{"internal/ice", "ProbeAndDial", "Prober", "if-cond-has:turnCandidates", "probe_turn_phase"},
 	// what the clients keep of a turn_credentials envelope: the issued list itself
 	{"internal/app", "handleEnvelope", "SnapshotSender", "args:s.setTurnServersIfEmpty", "sender_turn_intake_args"},
 	{"internal/app", "handleEnvelope", "snapshotReceiver", "args:r.setTurnServersIfEmpty", "receiver_turn_intake_args"},
